@@ -61,6 +61,16 @@ def check_C01(ctx):
                 lshown += 1
                 ctx.violation(f"[C01] {lab}: the run's verdict is success under the {r} reporter", f"# reporter: {r}   harness/scenario_run <file> {r} <outdir>\n" + sc.text(), found_input=True,
                               facts={"outside_bracket": True, "rep": r})
+    # ... and the totals of these runs are what the channel model says (theorem C01_every_record_counted is about it)
+    louts = run_model(["faults"], "".join("\n".join(["k -"] + legs_of(sc)) + "\n---\n" for sc, _ in late)).split("\n")[:-1]
+    nld = 0
+    for i, ((sc, lab), mo) in enumerate(zip(late, louts)):
+        o = lobs[i * len(REPORTERS_ALL) + REPORTERS_ALL.index("text")]
+        got = observed_totals(o, "text")
+        if got is None or [str(int(x)) for x in got] != mo.split(" ")[1:5]:
+            nld += 1
+            if nld <= 3: ctx.oblige("correspondence C01 (records outside a test's bracket)", False, f"{lab}, {sc.mode}: model totals {mo.split(' ')[1:5]}, text reporter {got}\n{sc.text()}")
+    ctx.oblige("correspondence C01: the totals of runs with failed checks outside a test's bracket are what the channel model says", nld == 0, f"{nld} of {len(late)} disagree")
     ctx.coverage["outside_bracket_runs"] = len(lobs)
     ctx.coverage["samples"] = sample_of(scens)
     ctx.coverage["rule"] = "scenario = suite tree x behaviour per test x mode, each run under every listed reporter; small-scope shapes + random structured trees"
@@ -1155,6 +1165,23 @@ def check_C20(ctx):
     rng = random.Random(ctx.seed * 1000 + 20)
     step = growth_step()
     ctx.oblige("the vector growth step is a positive constant read from src/vector.c (the theorems hold for every positive step)", bool(step) and step > 0, str(step))
+    # ---- the translator: the arithmetic of every growable array, re-extracted from the current sources; Lean proves, for all
+    # element counts and capacities, that the index written is inside what was allocated and the capacity recorded is not larger ----
+    import growth as gr
+    gtext, gthms, gproblems = gr.render()
+    gpath = os.path.join(ctx.work, "GenGrowth.lean")
+    open(gpath, "w").write(gtext)
+    with LakeLock():
+        gres = sh(["lake", "env", "lean", gpath], cwd=LEAN)
+    for site, why in gproblems:
+        ctx.oblige(f"growth site {site}: arithmetic extracted from the source", False, why)
+    for thm in gthms:
+        m = re.search(r"'Cgreen\.Gen\.Growth\.%s' (does not depend on any axioms|depends on axioms: \[([^\]]*)\])" % thm, gres.stdout)
+        axs = [a.strip() for a in (m.group(2) or "").split(",") if a.strip()] if m else ["?"]
+        ok = m is not None and all(a in ALLOWED_AXIOMS for a in axs)
+        ctx.oblige(f"generated obligation Cgreen.Gen.Growth.{thm} (growth arithmetic regenerated from /repo's sources)", ok, "" if ok else gres.stdout[-500:])
+    ctx.coverage["growth_sites_translated"] = sorted({t.rsplit("_", 3)[0] for t in gthms})
+    ctx.coverage["generated_sha"] = hashlib.sha256(gtext.encode()).hexdigest()[:16]
     impl = build_impl(ctx, asan=True)
     exe = compile_harness(ctx, impl, "vec_ops", ["vec_ops.c"])
     targets = sorted({0, 1, step - 1, step, step + 1, 2 * step - 1, 2 * step, 2 * step + 1, 3 * step, 3 * step + 1})
@@ -2188,32 +2215,58 @@ FAULT_CALLS = ["fork", "pipe", "fcntl", "tmpfile", "write", "read", "msend", "mr
 
 
 def legs_of(scen):
-    """The run as the result channel sees it (lean/CgreenModel/Model/Faults.lean): one leg per test and per suite, in execution order."""
-    legs = []
+    """The run as the result channel sees it (lean/CgreenModel/Model/Faults.lean): one leg per reader (finish_test /
+    finish_suite), in execution order. Records that reach the channel outside a test's own bracket - from a suite
+    fixture that the reporting process runs around a sub-suite, or from an exit handler of a test's process after its
+    completion notice - are part of the group the next reader finds."""
+    events = []      # ("send", recs) | ("read", kind, complete, signalled, recs)
     single = scen.mode.split(":", 1)[1] if scen.mode.startswith("single:") else None
+    forked = scen.mode == "fork"
 
     def has(su):
         return any(t.name == single for _, t in su.tests())
 
-    def test_leg(t):
+    def recs_of(acts):
+        r = ""
+        for a in acts:
+            if a == "P": r += "P"
+            elif a[0] in "FXY" and a != "X": r += "F"
+            elif a == "S": r += "S"
+        return r
+
+    def test_events(t, fx):
         if t.x:
-            return "leg t 0 0 S"
-        recs, complete, sig = "", 1, 0
+            events.append(("read", "t", 0, 0, "S")); return
+        recs, complete, sig, late = recs_of(fx[0]), 1, 0, ""
         for a in t.body:
             if a == "P": recs += "P"
+            elif a == "AX": late += "F"
             elif a[0] in "FXY": recs += "F"
             elif a == "S": recs += "S"
             elif a[0] == "K": complete, sig = 0, 1; break
             elif a in ("E", "U"): complete = 0; break
-        return f"leg t {complete} {sig} {recs or '-'}"
+        if complete: recs += recs_of(fx[1])
+        events.append(("read", "t", complete, sig, recs))
+        if late and forked and complete: events.append(("send", late))
 
     def walk(su):
+        fx = getattr(su, "fixture", None) or ([], [])
         for it in su.items:
-            if isinstance(it, S) and (single is None or has(it)): walk(it)
+            if isinstance(it, S) and (single is None or has(it)):
+                if su.su and fx[0]: events.append(("send", recs_of(fx[0])))
+                walk(it)
+                if su.td and fx[1]: events.append(("send", recs_of(fx[1])))
         for it in su.items:
-            if not isinstance(it, S) and (single is None or it.name == single): legs.append(test_leg(it))
-        legs.append("leg s 1 0 -")
+            if not isinstance(it, S) and (single is None or it.name == single):
+                test_events(it, (fx[0] if su.su else [], fx[1] if su.td else []))
+        events.append(("read", "s", 1, 0, ""))
     walk(scen.root)
+    legs, pending = [], ""
+    for ev in events:
+        if ev[0] == "send":
+            pending += ev[1]
+        else:
+            legs.append(f"leg {ev[1]} {ev[2]} {ev[3]} {(pending + ev[4]) or '-'}"); pending = ""
     return legs
 
 
